@@ -32,6 +32,9 @@ RULE = ('histories of add_resource / add_resource_overriding / add_function over
 NONE = b'none'
 
 
+NO_MODEL = ('more-than-65536-entries',)   # the list-based registry model needs minutes on 65 540 entries; the Python dict oracle decides
+
+
 def some(x):
     return [b'some', x]
 
@@ -186,6 +189,13 @@ def generate(rng, tier):
         ops += [look(i, names) for i in ids] + [look(rng.choice(IDS), names)]
         cases.append(sexp.dumps([b'c10', rng.choice([b'ref', b'ref', b'rc', b'concurrent']), rs, ops]))
     yield ('random-histories', cases)
+    # one resource with more than 2^16 entries (and a second, small one): positions in the registry are not 16-bit
+    big = resource([('msg', 'm%d' % i, [('t', 'v%d' % i)], [('x', [('t', 'a%d' % i)])] if i % 4096 == 0 else []) for i in range(65540)])
+    small = resource([('msg', 'm65536', [('t', 'small')], []), ('msg', 'zz', [('t', 'z')], [])])
+    probes = [look('m%d' % i, [b'x']) for i in (0, 1, 4096, 65535, 65536, 65537, 65539)] + [look('zz', [b'x'])]
+    cases = [sexp.dumps([b'c10', b'ref', [big, small], [[b'add', 0]] + probes + [[b'addo', 1]] + probes]),
+             sexp.dumps([b'c10', b'rc', [small, big], [[b'add', 0], [b'addo', 1]] + probes])]
+    yield ('more-than-65536-entries', cases)
 
 
 # ---- the property on the implementation alone: a Python dict is the keyed map -------------------
